@@ -271,6 +271,52 @@ let record_check line =
     with Failure m -> verdict false ("outcome:" ^ m))
   | _ -> verdict false ("outcome:" ^ i)
 
+(* ---- C09: mode nest: "<D|R> depth:via:reqtok ..." (pre-order, depth-annotated) ---- *)
+let parse_nest line : bool * rforest =
+  match nonempty (toks line) with
+  | b :: rest ->
+    let items = List.map (fun t ->
+      match String.split_on_char ':' t with
+      | d :: _via :: f -> (int_of_string d, req_of_tok (String.concat ":" f))
+      | _ -> failwith ("bad nest token " ^ t)) rest in
+    (* forest at [depth]: consumes the nodes of that depth with their subtrees *)
+    let rec forest depth items =
+      match items with
+      | (d, (r, a)) :: tl when d = depth ->
+        let (children, tl') = forest (depth + 1) tl in
+        let (siblings, tl'') = forest depth tl' in
+        (FCons (RNode (r, a, children), siblings), tl'')
+      | _ -> (FNil, items) in
+    let (f, left) = forest 0 items in
+    if left <> [] then failwith "malformed forest" else (chk_of b, f)
+  | [] -> failwith "nest: empty"
+
+let nest line =
+  let (chk, f) = parse_nest line in
+  match prof_forest chk (Some info_init) [] f with
+  | Ok ((slot, log), rets) ->
+    "log=" ^ list_s string_of_req log ^ " ret=" ^ list_s string_of_resp rets ^ " unserved=0 tally="
+    ^ (match slot with Some i -> string_of_info i | None -> "none")
+  | Panic p -> "panic " ^ string_of_panic p
+
+let nest_check line =
+  let (c, i) = split_sb line in
+  let (_, f) = parse_nest c in
+  let ops = List.map op_of_req (pre_reqs_f f) in
+  match toks i with
+  | "panic" :: _ -> verdict (not (no_overflow ops)) ("outcome:" ^ i)
+  | l :: r :: u :: t ->
+    (try
+      let log = List.map logged_req_of_tok (split_commas (field "log" l)) in
+      let rets = List.map (fun s -> if s = "-" then RespUnit else RespPtr (n_of_string s)) (split_commas (field "ret" r)) in
+      let tally_ok = (match parse_res_info ("ok " ^ field "tally" (String.concat " " t)) with
+                      | Some ti -> tally_sb ops ti | None -> false) in
+      if not (nest_sb f log rets) then verdict false (prof_why (nest_sb_why f log rets))
+      else if field "unserved" u <> "0" then verdict false "request-never-reached-the-wrapped-allocator"
+      else verdict tally_ok "tally-is-not-that-of-the-pre-order-sequence"
+    with Failure m -> verdict false ("outcome:" ^ i))
+  | _ -> verdict false ("outcome:" ^ i)
+
 (* mode churn: the run-time part (tested, not proved): the global-allocator binary prints "equal ..." *)
 let churn _ = "equal"
 let churn_check line =
@@ -288,6 +334,8 @@ let dispatch mode line =
   | "prof.sb" -> prof_check line
   | "record" -> record line
   | "record.sb" -> record_check line
+  | "nest" -> nest line
+  | "nest.sb" -> nest_check line
   | "churn" -> churn line
   | "churn.sb" -> churn_check line
   | _ -> failwith ("unknown mode " ^ mode)
